@@ -1,4 +1,5 @@
 import AmVerif.Model.ChangeCodec
+import AmVerif.Model.ChangeWF
 import AmVerif.Model.Wire
 import Driver.Crdt
 /-
@@ -8,6 +9,8 @@ import Driver.Crdt
     codec.compressed <raw> <compressed> from_bytes of the compressed form (Model/Chunk + Inflate)
     codec.expanded <actor> <seq> <startOp> <deps> <ops> <time> <msg> <extra>
                                         Change::from(ExpandedChange): hash + raw bytes
+    codec.wf <raw>                      a transaction-written change: `ChangeWF` of its expansion (the hypothesis of
+                                        `C18_change_roundtrip`) and the evaluated round trip: `wf=ok|bad rt=ok|bad`
     codec.bundle …                      not modelled (`skip`)
 -/
 namespace Driver.Codec
@@ -76,6 +79,21 @@ def exec (toks : List String) : List String :=
       | .ok (_, x) =>
         let out := encodeChange x
         [s!"ok {hexOfBytes (hashOfChunk out)} {hx out}"]
+      | .err .tooManyOps => ["skip"]
+      | .err _ => ["err"]
+      | .panic _ => ["panic"]
+  | ["codec.wf", raw] =>
+    match unhx raw with
+    | none => ["bad-input"]
+    | some bs =>
+      match decodeChange LIMIT bs with
+      | .ok (h, x) =>
+        let wf := decide (Full.ChangeWF x)
+        let out := encodeChange x
+        let rt := out == bs && (match decodeChange LIMIT out with
+          | .ok (h2, x2) => h2 == h && x2 == x
+          | _ => false)
+        [s!"wf={if wf then "ok" else "bad"} rt={if rt then "ok" else "bad"}"]
       | .err .tooManyOps => ["skip"]
       | .err _ => ["err"]
       | .panic _ => ["panic"]
